@@ -481,8 +481,8 @@ impl PartialEq<str> for JsStr<'_> {
     #[inline]
     fn eq(&self, other: &str) -> bool {
         match self.variant() {
-            JsStrVariant::Latin1(v) => v == other.as_bytes(),
-            JsStrVariant::Utf16(v) => other.encode_utf16().zip(v).all(|(a, b)| a == *b),
+            JsStrVariant::Latin1(v) => other.encode_utf16().eq(v.iter().copied().map(u16::from)),
+            JsStrVariant::Utf16(v) => other.encode_utf16().eq(v.iter().copied()),
         }
     }
 }
